@@ -111,6 +111,17 @@ def appends(fn, P, L, creation_block=None):
         else:
             ap_ = Append(b, 'other:' + ln, elems[0] if elems else None, t['fn']['name'], b in loops)
             ap_.elems = elems
+            if ln == 'index_mut' and elems and 'Range' not in (strip(elems[0]).ty or '') and not (strip(elems[0]).k == 'aggr'):
+                # `v[i] = x`: the element store through the reference index_mut returns (first statement using it)
+                d_ = t.get('dest')
+                tgt_ = t.get('target')
+                if d_ is not None and not d_['p'] and tgt_ is not None:
+                    for i2, st2 in enumerate(fn.blocks[tgt_]['stmts']):
+                        if st2['k'] == 'assign' and st2['lhs']['l'] == d_['l'] and st2['lhs']['p'] == ['deref']:
+                            ap_ = Append(b, 'setelem', elems[0], t['fn']['name'], b in loops)
+                            ap_.elems = elems
+                            ap_.value = norm(P.rvalue(st2['rv'], tgt_, i2, 0))
+                            break
             out.append(ap_)
     dom = fn.dominators()
     out.sort(key=lambda a: (len(dom.get(a.block, ())), a.block))
@@ -548,6 +559,16 @@ class Canon:
                 i_ = I_ if not rev else 'SubWithOverflow(%s, %s).0' % (str(int(n) - 1) if n.isdigit() else 'SubWithOverflow(%s, 1).0' % n, I_)
                 a_ = 'MulWithOverflow(%s, %d).0' % (i_, k_)
                 return 'index(%s, Range::Range{%s, AddWithOverflow(%s, %d).0})' % (self.c(coll), a_, a_, k_), I_
+            if src.k == 'call' and last(src.name) in ('rchunks_exact', 'rchunks_exact_mut') and len(src.args) == 2 and const_int(src.args[1]):
+                # chunks of k taken from the END: chunk i is a[len - k(i+1) .. len - k*i]
+                k_ = const_int(src.args[1])
+                coll = src.args[0]
+                L_ = self.coll_len(coll)
+                n = str(int(L_) // k_) if L_.isdigit() else 'Div(%s, %d)' % (L_, k_)
+                I_ = 'each(Range::Range{0, %s})' % n
+                i_ = I_ if not rev else 'SubWithOverflow(%s, %s).0' % (str(int(n) - 1) if n.isdigit() else 'SubWithOverflow(%s, 1).0' % n, I_)
+                a_ = 'SubWithOverflow(%s, MulWithOverflow(AddWithOverflow(%s, 1).0, %d).0).0' % (L_, i_, k_)
+                return 'index(%s, Range::Range{%s, AddWithOverflow(%s, %d).0})' % (self.c(coll), a_, a_, k_), I_
             return None
         if it.k == 'call' and last(it.name) == 'zip' and len(it.args) == 2:
             # both sides advance together: one index variable, a reversed side counts down from its end
@@ -612,8 +633,25 @@ class Canon:
                     out = out[:cut]
                     continue
                 el = '%s(%s)' % (a.kind, el)
+            elif a.kind == 'setelem':
+                # v[len-1] = b with a constant b: the last byte of the sequence is replaced
+                from .prov import const_int as _ci2
+                vb = _ci2(strip(a.value)) if getattr(a, 'value', None) is not None else None
+                if not a.in_loop and vb is not None and 0 <= vb < 256 and out and el == 'SubWithOverflow(len([%s]), 1).0' % ', '.join(out) \
+                        and not any(x.startswith(('LOOP(', 'other:', 'INIT:')) for x in out):
+                    import re as _re5
+                    m5 = _re5.match(r'^bytes:((?:[0-9a-f]{2})*)[0-9a-f]{2}$', out[-1])
+                    if m5:
+                        out[-1] = 'bytes:%s%02x' % (m5.group(1), vb)
+                        continue
+                    if _re5.match(r'^byte\(\d+\)$', out[-1]):
+                        out[-1] = 'byte(%d)' % vb
+                        continue
+                el = 'other:setelem(%s = %s)' % (el, self.c(a.value) if getattr(a, 'value', None) is not None else '?')
             elif a.kind == 'other:index_mut' and not a.in_loop:
-                pending = el
+                import re as _re6
+                # the length of a literal byte array is a number (`buf.len() - ct1.len()`)
+                pending = _re6.sub(r'len\(bytes:((?:[0-9a-f]{2})+)\)', lambda m_: str(len(m_.group(1)) // 2), el)
                 continue
             elif a.kind in ('other:copy_from_slice', 'other:clone_from_slice') and not a.in_loop and pending is not None:
                 # v[len - w ..].copy_from_slice(src) with |src| = w and the last element(s) of v of total length w:
@@ -832,6 +870,9 @@ class Canon:
                     a0 = strip(a0.args[0])
                 if a0.k == 'aggr' and a0.name in ('Option::Some', 'Result::Ok') and a0.args:
                     return self.c(a0.args[0])
+                if ln == 'expect':
+                    # expect(x, "message") is unwrap(x): the same value, the same panic condition
+                    return 'unwrap(%s)' % self.c(e.args[0])
             if ln == 'len' and len(e.args) == 1:
                 # the length of a sub-slice in terms of the original: len(x[a..]) = len(x) - a, len(x[a..b]) = b - a
                 x_ = strip(e.args[0])
